@@ -377,18 +377,21 @@ def _validate_url(url: str, validator: Callable[[str], None] | None) -> None:
         return
     try:
         validator(url)
+        return
     except Exception as exc:
         # Preserve useful, historically exposed validator diagnostics while
         # ensuring a callback that interpolates the input URL cannot leak its
-        # credentials into an RPC error.  Suppress the original exception so
-        # its args do not survive in ``__context__``.
+        # credentials into an RPC error.
         message = str(exc).replace(url, redact_url(url))
         parsed = urlparse(url)
         secrets = [parsed.username, parsed.password, *(value for _, value in parse_qsl(parsed.query))]
         for secret in secrets:
             if secret:
                 message = message.replace(secret, "<redacted>")
-        raise ValueError(f"ExternalLocation URL rejected: {message}") from None
+    # Raised after the ``except`` block has been left: ``raise ... from None``
+    # inside it would only hide the original exception from tracebacks while
+    # keeping it (and the URL in its args) reachable as ``__context__``.
+    raise ValueError(f"ExternalLocation URL rejected: {message}")
 
 
 @asynccontextmanager
@@ -402,11 +405,14 @@ async def _request_following_redirects(
     headers: Mapping[str, str] | None = None,
 ) -> AsyncIterator[aiohttp.ClientResponse]:
     """Issue one request, manually validating and bounding every redirect."""
+    import aiohttp as _aiohttp
+
     current_url = url
     response: aiohttp.ClientResponse | None = None
     try:
         for redirect_count in range(config.max_redirects + 1):
             _validate_url(current_url, url_validator)
+            request_failed = False
             try:
                 if method == "HEAD":
                     response = await client.head(current_url, headers=headers, allow_redirects=False)
@@ -415,13 +421,15 @@ async def _request_following_redirects(
             except (TimeoutError, ConnectionResetError):
                 raise
             except Exception as exc:
-                import aiohttp as _aiohttp
-
                 if isinstance(exc, _aiohttp.ServerDisconnectedError):
                     raise
-                raise _aiohttp.ClientConnectionError(
-                    f"ExternalLocation {method} failed for {redact_url(current_url)}"
-                ) from None
+                request_failed = True
+            if request_failed:
+                # Raised outside the ``except`` block so the client error, which
+                # can carry the full signed URL in its args / request_info, is
+                # not kept reachable as ``__context__`` of the redacted one.
+                raise _aiohttp.ClientConnectionError(f"ExternalLocation {method} failed for {redact_url(current_url)}")
+            assert response is not None
 
             if response.status not in _REDIRECT_STATUSES:
                 yield response
